@@ -170,6 +170,7 @@ class FaithfulBlockPolicy:
         return ("done",)
 
 
+_TURN = {"sgx_refuse": 0, "sgx_err": 0, "ledger_err": 0}
 ECHO_SHAPES = ["last", "first_payload", "cla", "cmd", "cla_cmd", "short", "long", "empty", "header_only",
                "payload_only", "reversed", "upper_bit"]
 
@@ -345,7 +346,8 @@ class SimDevice:
             if self.newpin_answer == "refuse":
                 return 0x69A0, b""
             if self.newpin_answer == "err":
-                return 0x6A99, b""
+                _TURN["ledger_err"] += 1
+                return [0x6A99, 0x6A01, 0x6BF2, 0x6D00, 0x69A1][_TURN["ledger_err"] % 5], b""
             self.pin = newpin
             self._journal_pin()
             return 0x9000, self._hdr(cmd)
@@ -369,9 +371,12 @@ class SimDevice:
             return 0x9000, self._hdr(cmd, 1 if ok else 0)
         if cmd == 0xA5:   # SGX_CHANGE_PASSWORD [0, pin]
             if self.newpin_answer == "refuse":
-                return 0x9000, self._hdr(cmd, 0)
+                # "not changed" is any answer byte other than 1: the shapes are taken in turn
+                _TURN["sgx_refuse"] += 1
+                return 0x9000, self._hdr(cmd, [0, 2, 0x55, 0xFF, 0x80, 0x10][_TURN["sgx_refuse"] % 6])
             if self.newpin_answer == "err":
-                return 0x6BF2, b""
+                _TURN["sgx_err"] += 1
+                return [0x6BF2, 0x6A99, 0x6D00, 0x6A01][_TURN["sgx_err"] % 4], b""
             self.pin = bytes(data[1:])
             self._journal_pin()
             return 0x9000, self._hdr(cmd, 1)
